@@ -1117,6 +1117,9 @@ func (t *tr) stmts(list []ast.Stmt, en env, k cont) string {
 	if len(list) == 0 {
 		return k(en)
 	}
+	if nl, ok := t.indexFill(list); ok {
+		list = nl
+	}
 	s, rest := list[0], list[1:]
 	next := func(en env) string { return t.stmts(rest, en, k) }
 	switch s := s.(type) {
@@ -1934,6 +1937,81 @@ func hasBreakOrContinue(b *ast.BlockStmt) bool {
 		return !found
 	})
 	return found
+}
+
+// indexFill: the three consecutive statements
+//
+//	xs = make([]T, len(m));  i := 0;  for k := range m { xs[i] = E; i++ }      (the first two in either order)
+//
+// fill a slice that has one slot per key of the map, front to back, once per key: they are
+//
+//	xs = make([]T, 0);  for k := range m { xs = append(xs, E) };  i := len(xs)
+//
+// and are translated as that (E may mention k but neither xs nor i).  One normal form for the two
+// ways of collecting the keys of a map into a slice.
+func (t *tr) indexFill(list []ast.Stmt) ([]ast.Stmt, bool) {
+	if len(list) < 3 {
+		return nil, false
+	}
+	rs, ok := list[2].(*ast.RangeStmt)
+	if !ok || rs.Value != nil && identName(rs.Value) != "_" || identName(rs.Key) == "" || identName(rs.Key) == "_" || len(rs.Body.List) != 2 {
+		return nil, false
+	}
+	as, ok1 := rs.Body.List[0].(*ast.AssignStmt)
+	inc, ok2 := rs.Body.List[1].(*ast.IncDecStmt)
+	if !ok1 || !ok2 || as.Tok != token.ASSIGN || len(as.Lhs) != 1 || len(as.Rhs) != 1 || inc.Tok != token.INC {
+		return nil, false
+	}
+	ix, ok := as.Lhs[0].(*ast.IndexExpr)
+	if !ok {
+		return nil, false
+	}
+	xs, i := identName(ix.X), identName(ix.Index)
+	if xs == "" || i == "" || identName(inc.X) != i {
+		return nil, false
+	}
+	fi := freeIdents(as.Rhs[0])
+	if fi[xs] || fi[i] {
+		return nil, false
+	}
+	var mk, zero *ast.AssignStmt
+	for _, st := range list[:2] {
+		a, ok := st.(*ast.AssignStmt)
+		if !ok || len(a.Lhs) != 1 || len(a.Rhs) != 1 {
+			return nil, false
+		}
+		switch identName(a.Lhs[0]) {
+		case xs:
+			mk = a
+		case i:
+			zero = a
+		}
+	}
+	if mk == nil || zero == nil || zero.Tok != token.DEFINE {
+		return nil, false
+	}
+	if bl, ok := zero.Rhs[0].(*ast.BasicLit); !ok || bl.Value != "0" {
+		return nil, false
+	}
+	c, ok := mk.Rhs[0].(*ast.CallExpr)
+	if !ok || identName(c.Fun) != "make" || len(c.Args) != 2 {
+		return nil, false
+	}
+	ln, ok := c.Args[1].(*ast.CallExpr)
+	if !ok || identName(ln.Fun) != "len" || len(ln.Args) != 1 || t.w.render(ln.Args[0]) != t.w.render(rs.X) {
+		return nil, false
+	}
+	mk2 := &ast.AssignStmt{Lhs: mk.Lhs, TokPos: mk.TokPos, Tok: mk.Tok,
+		Rhs: []ast.Expr{&ast.CallExpr{Fun: c.Fun, Args: []ast.Expr{c.Args[0], &ast.BasicLit{Kind: token.INT, Value: "0"}}}}}
+	app := &ast.AssignStmt{Lhs: []ast.Expr{ix.X}, TokPos: as.TokPos, Tok: token.ASSIGN,
+		Rhs: []ast.Expr{&ast.CallExpr{Fun: &ast.Ident{Name: "append"}, Args: []ast.Expr{ix.X, as.Rhs[0]}}}}
+	rs2 := &ast.RangeStmt{For: rs.For, Key: rs.Key, Value: rs.Value, TokPos: rs.TokPos, Tok: rs.Tok, X: rs.X,
+		Body: &ast.BlockStmt{Lbrace: rs.Body.Lbrace, List: []ast.Stmt{app}, Rbrace: rs.Body.Rbrace}}
+	cnt := &ast.AssignStmt{Lhs: zero.Lhs, TokPos: zero.TokPos, Tok: token.DEFINE,
+		Rhs: []ast.Expr{&ast.CallExpr{Fun: &ast.Ident{Name: "len"}, Args: []ast.Expr{ix.X}}}}
+	out := append([]ast.Stmt{mk2, rs2, cnt}, list[3:]...)
+	t.notes = append(t.notes, "make+index fill over the keys of "+t.w.render(rs.X)+" normalised to append")
+	return out, true
 }
 
 // hasLoop: a loop is translated to a match on `Loop.ret`/`Loop.done`, whose first arm has the type
